@@ -32,9 +32,11 @@ def propagate_viability_from_node(node: AttackGraphNode) -> None:
     for child in node.children:
         original_value = child.is_viable
         if child.type == 'or':
-            child.is_viable = False
+            # Evaluate before assigning, the child can be its own parent
+            is_viable = False
             for parent in child.parents:
-                child.is_viable = child.is_viable or parent.is_viable
+                is_viable = is_viable or parent.is_viable
+            child.is_viable = is_viable
         if child.type == 'and':
             child.is_viable = False
 
@@ -75,10 +77,12 @@ def propagate_necessity_from_node(node: AttackGraphNode) -> None:
         if child.type == 'or':
             child.is_necessary = False
         if child.type == 'and':
-            child.is_necessary = False
+            # Evaluate before assigning, the child can be its own parent
+            is_necessary = False
             for parent in child.parents:
-                child.is_necessary = child.is_necessary or \
+                is_necessary = is_necessary or \
                     _is_necessary_for_children(parent)
+            child.is_necessary = is_necessary
 
         # TODO: Update TTC for child attack step before if it is not necessary
         # before propagating it further.
